@@ -775,7 +775,7 @@ func specialC14(seed int64, thorough bool) *Special {
 	if thorough {
 		nt, conc, concRounds = 500, 16, 400
 	}
-	sp.Rule = fmt.Sprintf("%d targets: the bytes of Persist(New(batch)) from a cold builder pool (after two GCs) are compared with the bytes after 3 random build histories (bigger and smaller batches on both sides of the 1,024-document boundary, other chunk modes, other norm functions, builds whose norm function panics half way); then %d goroutines build concurrently for %d rounds and compare with their cold bytes; non-trivial = the pool probe reported a recycled builder object right before the compared build", nt, conc, concRounds)
+	sp.Rule = fmt.Sprintf("%d targets: the bytes of Persist(New(batch)) from a cold builder pool (after two GCs) are compared with the bytes after 3 random build histories (bigger and smaller batches on both sides of the 1,024-document boundary, other chunk modes, other norm functions, builds whose norm function panics half way); a capacity ladder (a batch with four locations per term built after batches leaving every backing-array capacity around its needs); then %d goroutines build concurrently for %d rounds and compare with their cold bytes; non-trivial = the pool probe reported a recycled builder object right before the compared build", nt, conc, concRounds)
 	recycled, failedBuilds := 0, 0
 	if os.Getenv("VERIF_C14_CONCURRENT_ONLY") != "" {
 		nt = 0 // the run under the race detector: only the concurrent builders
@@ -866,6 +866,56 @@ func specialC14(seed int64, thorough bool) *Special {
 			}
 			if len(sp.Samples) < 2 {
 				sp.Samples = append(sp.Samples, in)
+			}
+		}
+	}
+	// capacity ladder: a batch with several locations per term (more locations than term/field
+	// pairs) built right after batches that leave the pooled builder's backing arrays with every
+	// capacity around what this batch needs (below, between and above its numbers of postings and
+	// of locations)
+	if nt > 0 {
+		var target Batch
+		for d := 0; d < 6; d++ {
+			body := Field{N: "body"}
+			for ti, t := range []string{"x", "y", "z"} {
+				tm := Term{T: []byte(t), Freq: 4}
+				for l := 0; l < 4; l++ {
+					tm.Locs = append(tm.Locs, Loc{Pos: 1 + 4*ti + l, Start: 3 * l, End_: 3*l + 2})
+				}
+				body.Terms = append(body.Terms, tm)
+				body.Len += 4
+			}
+			target = append(target, Doc{idField(fmt.Sprintf("l%d", d), true), body})
+		}
+		dropPool()
+		cold, _, err := buildBytes(Current, target, 1025)
+		if err != nil {
+			sp.failf(nil, "cold build of the ladder target failed: %v", err)
+		}
+		for m := 4; m <= 90 && err == nil; m += 1 + m/12 {
+			var prev Batch
+			for d := 0; d < m; d++ {
+				prev = append(prev, Doc{idField(fmt.Sprintf("p%d", d), false),
+					Field{N: "body", Len: 1, Terms: []Term{{T: []byte("w"), Freq: 1, Locs: []Loc{{Pos: 1, Start: 0, End_: 1}}}}}})
+			}
+			dropPool()
+			in := c14Input{Seed: seed, Target: -1, History: fmt.Sprintf("ladder(%d docs with one location each)", m), CM: 1025, NDocs: len(target)}
+			if e, pan := safeNew(prev, HarnessNorm, 1025); e != nil || pan != nil {
+				sp.failf(in, "ladder build failed: err=%v panic=%v", e, pan)
+				continue
+			}
+			used := Current.PoolProbe()
+			warm, _, e := buildBytes(Current, target, 1025)
+			sp.Evaluations++
+			sp.Distinct++
+			if used {
+				recycled++
+				sp.Nontrivial++
+			}
+			if e != nil {
+				sp.failf(in, "build after the ladder step failed although the same batch builds from a cold pool: %v", e)
+			} else if !bytes.Equal(cold, warm) {
+				sp.failf(in, "bytes after the ladder step differ from the cold-start bytes (first difference at offset %d)", firstDiffBytes(cold, warm))
 			}
 		}
 	}
